@@ -554,9 +554,13 @@ Error RACFGBuilder::on_instruction(InstNode* inst, InstControlFlow& cf, RAInstBu
         switch (inst->inst_id()) {
           case Inst::kIdVpternlogd:
           case Inst::kIdVpternlogq: {
+            // All bits become either zeros or ones regardless of the inputs, however, if the instruction uses
+            // {k} without {z} (merge-masking) the elements that are masked out keep the previous content.
             uint32_t predicate = uint32_t(imm.value() & 0xFFu);
             if (predicate == 0x00u || predicate == 0xFFu) {
-              ib[0]->make_write_only();
+              if (!inst->has_extra_reg() || inst->has_option(InstOptions::kX86_ZMask)) {
+                ib[0]->make_write_only();
+              }
             }
             break;
           }
